@@ -549,6 +549,74 @@ func (a vfAnyReq) Context(env *vfEnvT) (*context.Context, bool) {
 	return a.mqtt.Context(), true
 }
 
+func (a vfAnyReq) ContextCtl(env *vfEnvT) (*context.Context, vfReqCtl, bool) {
+	if a.http != nil {
+		return a.http.ContextCtl(env)
+	}
+	return a.mqtt.Context(), vfReqCtl{arm: func() {}, done: func() {}}, true
+}
+
+// vfRetryCancelScenario (some of the pipelines that contain a Proxy): every pool of the first
+// Proxy refers to a Retry policy, the backend of the pools is unreachable most of the time (the
+// first attempt fails at once: connection refused), and every request of the case comes from a
+// client that goes away (see vfCtxModes) - before the first attempt, during it, or while the retry
+// wrapper waits before the next attempt (the long waits make "during the back-off" the common
+// outcome; nobody ever pays a full wait because no request of such a case has a live context).
+// Returns the scenario class ("" = not applied).
+func vfRetryCancelScenario(g *vfG, body map[string]interface{}, info *vfPipeInfo) string {
+	var proxy map[string]interface{}
+	fs, _ := body["filters"].([]interface{})
+	for _, f := range fs {
+		if fm, ok := f.(map[string]interface{}); ok && fm["kind"] == "Proxy" {
+			proxy = fm
+			break
+		}
+	}
+	if proxy == nil || !g.chance("scenario", "retry+client-gone", 30) {
+		return ""
+	}
+	pol := vfGenPolicyTree(g, "Retry", 0)
+	pol["name"] = "rwait"
+	pol["maxAttempts"] = g.intn("scenario", "maxAttempts", 1, 3)
+	wait := g.pick("scenario", "waitDuration", "100ms", "300ms", "150ms", "2ms")
+	pol["waitDuration"] = wait
+	rs, _ := body["resilience"].([]interface{})
+	rs = append(rs, pol)
+	body["resilience"] = rs
+	info.Policies = rs
+	info.PolicyNames = append(info.PolicyNames, "rwait")
+	dead := g.chance("scenario", "dead-backend", 70)
+	pools, _ := proxy["pools"].([]interface{})
+	for _, p := range pools {
+		pm, ok := p.(map[string]interface{})
+		if !ok {
+			continue
+		}
+		pm["retryPolicy"] = "rwait"
+		if svs, _ := pm["servers"].([]interface{}); dead {
+			for _, sv := range svs {
+				if sm, ok := sv.(map[string]interface{}); ok {
+					sm["url"] = g.pools.DeadURL
+				}
+			}
+		}
+	}
+	class := "scenario:retry+client-gone wait="
+	if wait == "2ms" {
+		class += "short"
+	} else {
+		class += "long"
+	}
+	if dead {
+		class += " backend=unreachable"
+	} else {
+		class += " backend=generated"
+	}
+	g.bounds[class] = true
+	g.present["scenario.retry+client-gone"] = true
+	return class
+}
+
 func vfGenAnyReq(rt *rapid.T, mqtt bool) vfAnyReq {
 	if mqtt {
 		r := vfGenMQTTReq(rt)
@@ -573,6 +641,10 @@ func TestVerifC13Pipeline(t *testing.T) {
 		body, info := vfGenPipelineBody(g, "", 4, true)
 		vfFixPolicyRefs(g, body)
 		vfShapeBody(g, "", body, &info)
+		scenario := ""
+		if !info.MQTT {
+			scenario = vfRetryCancelScenario(g, body, &info)
+		}
 		if info.DanglingNS && vf.HasKnown("flow-node-namespace-without-request panic=interface conversion") && vfChance(rt, "steer-away-from-known", 80) {
 			// known finding: steer away by construction most of the time (still produced sometimes,
 			// so that a fix makes the class green instead of invisible)
@@ -626,13 +698,24 @@ func TestVerifC13Pipeline(t *testing.T) {
 					}
 				}
 			}
-			ctx, ok := rq.Context(env)
+			if rq.http != nil {
+				if scenario != "" {
+					rq.http.Ctx = vfPick(rt, "scenario-request-context", vfCtxModes...)
+					if vfChance(rt, "scenario-buffered-request", 80) {
+						rq.http.MaxBody = 0 // a stream request is never retried
+					}
+					vf.Class("retry+client-gone request ctx=" + rq.http.Ctx)
+				} else if rq.http.Ctx = vfGenReqCtx(rt, 6); rq.http.Ctx != "" {
+					vf.Class("request-context=" + rq.http.Ctx)
+				}
+			}
+			ctx, ctl, ok := rq.ContextCtl(env)
 			if !ok {
 				continue
 			}
 			var res string
 			r.ctx = ctx
-			if pn, txt, site, fk := vfRecoverRoot(func() { res = cur.Handle(ctx) }); pn {
+			if pn, txt, site, fk := vfRecoverRoot(func() { ctl.arm(); defer ctl.done(); res = cur.Handle(ctx) }); pn {
 				vf.Case(len(g.present) > 0, "handle|"+dk+"|"+rq.Class(), nil)
 				r.fail("Pipeline", "Handle", txt, site, fk, "\nrequest #"+fmt.Sprint(i)+": "+rq.String(), &info)
 				return
